@@ -206,6 +206,56 @@ def _field_names(body):
     return names
 
 
+def _field_decls(body):
+    """[(name, type text, attribute text)] of a named-field body"""
+    out = []
+    for part in _split_commas(body):
+        if not _cfg_enabled(part):
+            continue
+        attrs = part[:len(part) - len(_strip_attrs(part))]
+        part = _strip_attrs(part)
+        part = re.sub(r'^pub(\([^)]*\))?\s+', '', part)
+        mm = re.match(r'^([A-Za-z_][A-Za-z_0-9]*)\s*:\s*(.*)$', part, re.S)
+        if mm:
+            out.append((mm.group(1), ' '.join(mm.group(2).split()), attrs))
+    return out
+
+
+PAYLOAD_ENUMS = set()
+
+
+def parse_field_types(src):
+    """-> (struct name -> [(field, type, attrs)], (enum, variant) -> [(field, type, attrs)], tuple struct -> [types])"""
+    s = strip_comments(src)
+    st, vf, ts = {}, {}, {}
+    for m in re.finditer(r'\bstruct\s+([A-Za-z_][A-Za-z_0-9]*)\s*(<[^{(;]*>)?\s*(where[^{]*)?\{', s):
+        start = m.end() - 1
+        end = _match_brace(s, start)
+        st[m.group(1)] = _field_decls(s[start + 1:end])
+    for m in re.finditer(r'\bstruct\s+([A-Za-z_][A-Za-z_0-9]*)\s*\(', s):
+        start = m.end() - 1
+        end = _match_brace(s, start)
+        tys = []
+        for part in _split_commas(s[start + 1:end]):
+            part = _strip_attrs(part)
+            part = re.sub(r'^pub(\([^)]*\))?\s+', '', part).strip()
+            if part:
+                tys.append(' '.join(part.split()))
+        ts[m.group(1)] = tys
+    for m in re.finditer(r'\benum\s+([A-Za-z_][A-Za-z_0-9]*)\s*(<[^{]*>)?\s*\{', s):
+        start = m.end() - 1
+        end = _match_brace(s, start)
+        for part in _split_commas(s[start + 1:end]):
+            part = _strip_attrs(part)
+            mm = re.match(r'^([A-Za-z_][A-Za-z_0-9]*)\s*\{', part)
+            if mm:
+                j = _match_brace(part, mm.end() - 1)
+                vf[(m.group(1), mm.group(1))] = _field_decls(part[mm.end():j])
+            if re.match(r'^([A-Za-z_][A-Za-z_0-9]*)\s*[({]', part):
+                PAYLOAD_ENUMS.add(m.group(1))
+    return st, vf, ts
+
+
 def parse_structs(src):
     """-> (structs: name -> [field names] (named structs only), variant_fields: (enum, variant) -> [names])"""
     s = strip_comments(src)
@@ -237,6 +287,10 @@ class SourceInfo:
         self.enums = dict(STD_ENUMS)
         self.structs = {}
         self.vfields = {}
+        self.ftypes = {}        # struct -> [(field, type, attrs)]
+        self.vftypes = {}       # (enum, variant) -> [(field, type, attrs)]
+        self.tstructs = {}      # tuple struct -> [types]
+        self.payload_enums = set()
         self.impl_cache = {}
 
     def load_crate(self, reldir):
@@ -253,6 +307,14 @@ class SourceInfo:
                 st, vf = parse_structs(txt)
                 self.structs.update(st)
                 self.vfields.update(vf)
+                try:
+                    a, b, c = parse_field_types(txt)
+                    self.ftypes.update(a)
+                    self.vftypes.update(b)
+                    self.tstructs.update(c)
+                    self.payload_enums = set(PAYLOAD_ENUMS)
+                except Exception:      # noqa  (type facts are optional: only the tracker's symbolic frames use them)
+                    pass
 
     def span_text(self, file, l1, c1, l2, c2):
         txt = self.files.get(file)
